@@ -152,11 +152,14 @@ func (c18Engine) Run(raw json.RawMessage) (interface{}, error) {
 		return nil, err
 	}
 	md := pgs.InitMockDebugger()
-	params := pgs.Parameters{"id": fmt.Sprint(in.Params)}
+	// the output path of a context is the one it was created with, not the parameter of that name
+	params := pgs.Parameters{"id": fmt.Sprint(in.Params), "output_path": "from/params"}
 	var ctx pgs.BuildContext = pgs.Context(md, params, in.Output.String())
 	var mod *pgs.ModuleBase
 	if in.Via == "module" {
 		mod = &pgs.ModuleBase{}
+		// a module base follows the context it was given last (one reused after an earlier run)
+		mod.InitContext(pgs.Context(md, pgs.Parameters{"id": "0"}, "earlier/run").Push("old").PushDir("olddir"))
 		mod.InitContext(ctx)
 		ctx = mod
 	}
